@@ -34,7 +34,8 @@ PROBES = ['proxy-introspected', 'proxy-explicit', 'proxy-by-name', 'three-calls-
           'two-callers-one-exporter', 'remote-error-mirrored', 'call-to-second-exporter',
           'same-serial-two-clients', 'exporter-calls-itself-through-bus', 'big-endian-foreign-call', 'implementation-answers-later',
           'late-answers-out-of-order', 'proxy-with-reordered-or-partial-interfaces',
-          'proxy-call-without-interface', 'proxy-introspected-replacing-cache']
+          'proxy-call-without-interface', 'proxy-introspected-replacing-cache',
+          'overlapping-proxy-requests']
 COMPONENTS = {
     'real': ['txdbus.bus.Bus / BusProtocol (routing, Hello, RequestName)', 'BusAuthenticator + '
              'mechanisms', 'txdbus.client.DBusClientConnection x 2-4', 'txdbus.objects (proxies, '
@@ -146,13 +147,21 @@ def scenario(ctx):
     callers = clients[nexp:] if len(clients) > nexp else clients
     if ds.flag(0.15):
         callers = clients        # an exporter may call (itself or the other one) through the bus
+    stale_cache = {}
     proxies = []          # dict(owner, svc, kind, obs, prox)
     calls = []
     rounds = [1 + ds.choose(5 if ctx.tier == 'thorough' else 3)]
     budget = [0]
 
     def get_proxy(c, s):
-        kind = ds.pickw([('introspect', 4), ('explicit', 3), ('by-name', 2), ('introspect-replace', 1)])
+        kind = ds.pickw([('introspect', 5), ('explicit', 3), ('by-name', 2)])
+        # whether this caller's cache holds an outdated definition for this service is decided
+        # once per (caller, service): then every introspection of it asks for replacement
+        ck = (c['name'], s['name'])
+        if ck not in stale_cache:
+            stale_cache[ck] = ds.flag(0.2)
+        if kind == 'introspect' and stale_cache[ck]:
+            kind = 'introspect-replace'
         p = {'owner': c, 'svc': s, 'kind': kind, 'prox': None, 'failed': None}
         descs = list(s['cs'].all_ifaces())
         if kind in ('explicit', 'by-name') and len(descs) > 1 and ds.flag(0.5):
@@ -173,7 +182,9 @@ def scenario(ctx):
                 # it asks for the cache to be replaced by what introspection finds
                 from txdbus import interface as ti
                 stale = descs[0]
-                ti.DBusInterface(stale.name, ti.Method('Obsolete', 'i', 's'))
+                if stale_cache[ck] is True:
+                    ti.DBusInterface(stale.name, ti.Method('Obsolete', 'i', 's'))
+                    stale_cache[ck] = 'registered'
                 ifs = None
                 replace = True
             elif kind == 'explicit':
@@ -286,6 +297,10 @@ def scenario(ctx):
         for s in services:
             if ds.flag(0.8) or not proxies:
                 get_proxy(c, s)
+                if ds.flag(0.25):
+                    # a second request for the same object while the first may still be in flight
+                    sim.probe('overlapping-proxy-requests')
+                    get_proxy(c, s)
     sched.run(600, None, invariant)
     sched.drain(600, None, invariant)
     for p in proxies:
